@@ -5,7 +5,8 @@ cd /verif
 ids="$@"; [ -n "$ids" ] || ids=$(ls seeded)
 ok=0; bad=0
 for s in $ids; do
-  c=$(python3 -c "import json;print(json.load(open('/verif/seeded/$s/meta.json'))['caught_by'][0])")
+  c=$(python3 -c "import json;print((json.load(open('/verif/seeded/$s/meta.json'))['caught_by'] or ['-'])[0])")
+  [ "$c" = "-" ] && { echo "$s not caught by any check (recorded as such)"; continue; }
   line=$(tools/recheck_seed.sh $s $c 2>&1 | grep "^$s")
   echo "$line"
   case "$line" in *"exit=1"*) ok=$((ok+1));; *) bad=$((bad+1)); echo "  NOT CAUGHT: $s by $c";; esac
